@@ -470,6 +470,30 @@ def equi_cases(draw):
         b2 = [list(p) for p in draw(st.lists(gen.perm_of(L), min_size=1, max_size=2))]
         joint = draw(st.booleans())
         return {"b1": b1, "b2": b2, "n": draw(st.sampled_from([L - 1, L - 1, L])), "joint": joint}
+    if draw(st.integers(0, 4)) == 0:
+        # cancelling differences: 'all permutations except p and q2' against 'all except p2 and q'
+        # (a fully shaded mesh pattern is contained in its own underlying permutation only), with
+        # p, p2 of one length, q, q2 of another, s(p) = s(q) != s(p2) = s(q2) for a chosen statistic s:
+        # the two classes differ at both lengths for s, yet agree once the lengths are pooled
+        a = draw(st.integers(2, 3))
+        b = draw(st.integers(a + 1, 4))
+        sname = draw(st.sampled_from(["Number of descents", "Number of inversions", "Number of fixed points", "Number of cycles", "Number of peaks", "Number of left-to-right minimas"]))
+        fn = S.STRONG[sname]
+        by_a, by_b = {}, {}
+        for t in ref.perms(a):
+            by_a.setdefault(fn(t), []).append(t)
+        for t in ref.perms(b):
+            by_b.setdefault(fn(t), []).append(t)
+        common = sorted(set(by_a) & set(by_b))
+        if len(common) >= 2:
+            v1, v2 = draw(st.permutations(common))[:2]
+            pp, p2 = draw(st.sampled_from(by_a[v1])), draw(st.sampled_from(by_a[v2]))
+            q, q2 = draw(st.sampled_from(by_b[v1])), draw(st.sampled_from(by_b[v2]))
+
+            def full(t):
+                return [list(t), [[x, y] for x in range(len(t) + 1) for y in range(len(t) + 1)]]
+
+            return {"b1": [full(pp), full(q2)], "b2": [full(p2), full(q)], "n": b, "joint": draw(st.booleans())}
     if draw(st.integers(0, 5)) == 0:
         # mesh classes (levels may vanish and come back): a mesh basis against its symmetric image or itself
         m = draw(gen.mesh_patterns(1, 2, draw(st.sampled_from(["full", "dense", "sparse"]))))
